@@ -6,9 +6,28 @@ namespace Shutdown
 
 /-- per-call invariant -/
 structure CallOk (k : Call) : Prop where
-  plan_eq : k.sent ++ k.todo.flatten = k.plan
+  /-- unless the request timeout cut the call: written ++ still to come = the handler's outcome -/
+  plan_eq : k.expired = false → k.sent ++ k.todo.flatten = k.plan
+  /-- a call cut by the request timeout carries the server's answer and nothing else -/
+  expired_eq : k.expired = true → k.sent = [.expired] ∧ k.todo = []
   recv_le : k.recv ≤ k.sent.length
   unstarted : k.started = false → k.sent = []
+  /-- before the handler has returned its response nothing has been written -/
+  nohead : k.headDone = false → k.expired = false → k.sent = []
+  /-- the request timeout never cuts a call that is past its response head -/
+  expired_nohead : k.expired = true → k.headDone = false
+
+/-- a rewrite of a call that leaves alone everything the call invariant talks about -/
+theorem CallOk.congr {k k' : Call} (h : CallOk k) (hp : k'.plan = k.plan) (ht : k'.todo = k.todo)
+    (hs : k'.sent = k.sent) (he : k'.expired = k.expired) (hh : k'.headDone = k.headDone)
+    (hr : k'.recv ≤ k.sent.length) (hst : k'.started = false → k.sent = []) : CallOk k' := by
+  refine ⟨?_, ?_, ?_, ?_, ?_, ?_⟩
+  · intro e; rw [hs, ht, hp]; exact h.plan_eq (he ▸ e)
+  · intro e; rw [hs, ht]; exact h.expired_eq (he ▸ e)
+  · rw [hs]; exact hr
+  · intro e; rw [hs]; exact hst e
+  · intro e1 e2; rw [hs]; exact h.nohead (hh ▸ e1) (he ▸ e2)
+  · intro e; rw [hh]; exact h.expired_nohead (he ▸ e)
 
 /-- per-connection invariant, relative to the globals it mentions
 (`gr` = cfgGraceful, `bi` = cfgBiased, `snt` = sent, `res` = resolved, `sr` = sigReady) -/
@@ -53,7 +72,8 @@ theorem ConnOk.mono {gr bi snt res sr snt' res' sr' : Bool} {cn : Conn}
     resolved_npending := fun a => h.resolved_npending (h2 a) }
 
 theorem callOk_new (chunks : List (List Item)) (req : Nat) : CallOk (Call.new chunks req) :=
-  ⟨by simp [Call.new], by simp [Call.new], by simp [Call.new]⟩
+  ⟨by simp [Call.new], by simp [Call.new], by simp [Call.new], by simp [Call.new],
+   by simp [Call.new], by simp [Call.new]⟩
 
 theorem connOk_new (gr bi snt res sr p : Bool) (hp : res = true → p = false) :
     ConnOk gr bi snt res sr (Conn.new p sr) := by
@@ -63,7 +83,7 @@ theorem connOk_newTls (gr bi snt res sr p go bad : Bool) (hp : res = true → p 
     ConnOk gr bi snt res sr (Conn.newTls p sr go bad) := by
   constructor <;> simp_all [Conn.newTls, Conn.new]
 
-theorem good_init (g b a : Bool) : Good (init g b a) := by
+theorem good_init (g b a t : Bool) : Good (init g b a t) := by
   constructor <;> simp [init]
 
 -- ------------------------------------------------------------------ generic update lemmas
@@ -274,13 +294,13 @@ theorem good_step {s s' : State} {l : Label} (hg : Good s) (h : step s l = some 
     intro cn _ k hkm hkj _ hk
     have hc := hk.calls_ok k hkm
     exact connOk_setCall hk hkj (hk.started_hs k hkm)
-      (fun a b => hk.closed_calls a b k hkm) ⟨hc.plan_eq, hc.recv_le, hc.unstarted⟩
+      (fun a b => hk.closed_calls a b k hkm) (hc.congr rfl rfl rfl rfl rfl hc.recv_le hc.unstarted)
   | permit c j =>
     refine good_updCall hg h ?_
     intro cn _ k hkm hkj _ hk
     have hc := hk.calls_ok k hkm
     exact connOk_setCall hk hkj (hk.started_hs k hkm)
-      (fun a b => hk.closed_calls a b k hkm) ⟨hc.plan_eq, hc.recv_le, hc.unstarted⟩
+      (fun a b => hk.closed_calls a b k hkm) (hc.congr rfl rfl rfl rfl rfl hc.recv_le hc.unstarted)
   | freeRun =>
     simp only [step, Option.some.injEq] at h
     subst h
@@ -296,13 +316,13 @@ theorem good_step {s s' : State} {l : Label} (hg : Good s) (h : step s l = some 
     · intro k hkm
       obtain ⟨k0, hk0, rfl⟩ := List.mem_map.1 hkm
       have hc := hk.calls_ok k0 hk0
-      exact ⟨hc.plan_eq, hc.recv_le, hc.unstarted⟩
+      exact hc.congr rfl rfl rfl rfl rfl hc.recv_le hc.unstarted
   | cancel c j =>
     refine good_updCall hg h ?_
     intro cn _ k hkm hkj _ hk
     have hc := hk.calls_ok k hkm
     exact connOk_setCall hk hkj (hk.started_hs k hkm)
-      (fun _ _ _ hcan => by simp at hcan) ⟨hc.plan_eq, hc.recv_le, hc.unstarted⟩
+      (fun _ _ _ hcan => by simp at hcan) (hc.congr rfl rfl rfl rfl rfl hc.recv_le hc.unstarted)
   | ageTick c =>
     simp only [step] at h
     split at h
@@ -488,7 +508,7 @@ theorem good_step {s s' : State} {l : Label} (hg : Good s) (h : step s l = some 
     have hc := hk.calls_ok k hkm
     exact connOk_setCall hk hkj (fun _ => hgd.1.1.1.1.1.2)
       (fun hcl => by simp [hgd.1.1.1.2] at hcl)
-      ⟨hc.plan_eq, hc.recv_le, fun hs => by simp at hs⟩
+      (hc.congr rfl rfl rfl rfl rfl hc.recv_le (fun hs => by simp at hs))
   | produce c j =>
     refine good_updCall hg h ?_
     intro cn _ k hkm hkj hgd hk
@@ -500,14 +520,22 @@ theorem good_step {s s' : State} {l : Label} (hg : Good s) (h : step s l = some 
     · unfold Call.produce
       split
       · rename_i ch rest htodo
-        refine ⟨?_, ?_, ?_⟩
-        · have := hc.plan_eq
+        have hne : k.expired = false := by
+          cases he : k.expired with
+          | false => rfl
+          | true => have := (hc.expired_eq he).2; simp [htodo] at this
+        refine ⟨?_, ?_, ?_, ?_, ?_, ?_⟩
+        · intro _
+          have := hc.plan_eq hne
           simp only [htodo, List.flatten_cons] at this
           simpa [List.append_assoc] using this
+        · intro he; simp [hne] at he
         · have := hc.recv_le
           simp only [List.length_append]
           omega
         · intro hs; simp [hst] at hs
+        · intro hh; simp at hh
+        · intro he; simp [hne] at he
       · exact hc
   | deliver c j =>
     refine good_updCall hg h ?_
@@ -515,11 +543,43 @@ theorem good_step {s s' : State} {l : Label} (hg : Good s) (h : step s l = some 
     simp only [Bool.and_eq_true, Bool.not_eq_true', decide_eq_true_eq] at hgd
     have hc := hk.calls_ok k hkm
     refine connOk_setCall hk hkj (hk.started_hs k hkm) (fun hcl => by simp [hgd.1.1.1] at hcl) ?_
-    exact ⟨hc.plan_eq, by show k.recv + 1 ≤ k.sent.length; omega, hc.unstarted⟩
+    exact hc.congr rfl rfl rfl rfl rfl (by show k.recv + 1 ≤ k.sent.length; omega) hc.unstarted
+  | deadlineTick c j =>
+    simp only [step] at h
+    split at h
+    · refine good_updCall hg h ?_
+      intro cn _ k hkm hkj _ hk
+      have hc := hk.calls_ok k hkm
+      exact connOk_setCall hk hkj (hk.started_hs k hkm)
+        (fun a b => hk.closed_calls a b k hkm) (hc.congr rfl rfl rfl rfl rfl hc.recv_le hc.unstarted)
+    · cases h
+  | expire c j =>
+    simp only [step] at h
+    split at h
+    · refine good_updCall hg h ?_
+      intro cn _ k hkm hkj hgd hk
+      simp only [Bool.and_eq_true, Bool.not_eq_true'] at hgd
+      have hc := hk.calls_ok k hkm
+      have hst : k.started = true := hgd.1.1.1.1.2
+      have hnh : k.headDone = false := hgd.1.2
+      have hne : k.expired = false := hgd.2
+      have hsent : k.sent = [] := hc.nohead hnh hne
+      refine connOk_setCall hk hkj (fun _ => hk.started_hs k hkm hst)
+        (fun hcl => by simp [hgd.1.1.1.1.1] at hcl) ?_
+      refine ⟨?_, ?_, ?_, ?_, ?_, ?_⟩
+      · intro he; simp [Call.expire] at he
+      · intro _; simp [Call.expire, hsent]
+      · have := hc.recv_le
+        simp only [Call.expire, List.length_append]
+        omega
+      · intro hs; simp [Call.expire, hst] at hs
+      · intro _ he; simp [Call.expire] at he
+      · intro _; exact hnh
+    · cases h
 
 theorem good_reachable {g b a : Bool} {s : State} (h : Reachable g b a s) : Good s := by
   induction h with
-  | init => exact good_init g b a
+  | init t => exact good_init g b a t
   | step l _ hs ih => exact good_step ih hs
 
 theorem good_run {s s' : State} {ls : List Label} (hg : Good s) (h : run s ls = some s') :
@@ -547,6 +607,10 @@ theorem step_cfg {s s' : State} {l : Label} (h : step s l = some s') :
     split at h
     · obtain ⟨_, _, _, rfl⟩ := updConn_some h; exact ⟨rfl, rfl, rfl⟩
     · cases h
+  case deadlineTick | expire =>
+    split at h
+    · obtain ⟨_, _, _, _, _, rfl⟩ := updCall_some h; exact ⟨rfl, rfl, rfl⟩
+    · cases h
   case issue | peerDrop | connSig | connAge | connBreak | connDropWatcher | hsDone | final
       | clientHello | tlsDone | tlsFail =>
     obtain ⟨_, _, _, rfl⟩ := updConn_some h; exact ⟨rfl, rfl, rfl⟩
@@ -560,7 +624,7 @@ theorem step_cfg {s s' : State} {l : Label} (h : step s l = some s') :
 theorem reachable_cfg {g b a : Bool} {s : State} (h : Reachable g b a s) :
     s.cfgGraceful = g ∧ s.cfgBiased = b ∧ s.cfgAge = a := by
   induction h with
-  | init => exact ⟨rfl, rfl, rfl⟩
+  | init t => exact ⟨rfl, rfl, rfl⟩
   | step l _ hs ih =>
     obtain ⟨h1, h2, h3⟩ := step_cfg hs
     exact ⟨h1.trans ih.1, h2.trans ih.2.1, h3.trans ih.2.2⟩
